@@ -192,6 +192,98 @@ def run_windows(ctx, loe, widths, mlw, bs):
     return seen
 
 
+def run_regroup(ctx, loe, rng, widths, mlw, bs):
+    """process_lines (transformer mode) end to end with a run_ocr that answers every window with a PREPARED part text (empty,
+    blank-only, ordinary): the line's result must be the stitching of exactly its own windows' parts, in order."""
+    import torch
+    eng = object.__new__(loe.BaseEngineLineOCR)
+    eng.line_px_height = 2
+    eng.max_line_width = mlw
+    eng.model_type = 'transformer'
+    eng.device = torch.device('cpu')
+    eng.batch_size = bs
+    eng.line_padding_px = 32
+    eng.max_input_horizontal_pixels = 480 * bs
+    eng.net_subsampling = 4
+
+    def nwin(w):
+        if w <= mlw:
+            return 1
+        ov, end, k = mlw // 4, mlw, 0
+        while end < w:
+            k += 1
+            end += mlw - ov
+        return k + 1
+    alpha = 'abc '
+    parts, logits = [], []
+    for li, w in enumerate(widths):
+        ps = []
+        for k in range(nwin(w)):
+            r = rng.random()
+            ps.append('' if r < 0.15 else rng.choice([' ', '  ', ' ']) if r < 0.4 else ''.join(rng.choice(alpha) for _ in range(rng.randrange(1, 7))))
+        parts.append(ps)
+        logits.append([np.arange(len(p) + rng.choice([0, 0, 2]), dtype=np.int64).reshape(-1, 1) * np.ones((1, 3), dtype=np.int64) + 1000 * k + 100000 * li
+                       for k, p in enumerate(ps)])
+    unknown = []
+
+    def run_ocr(batch):
+        outs_t, outs_l = [], []
+        for img in batch:
+            cols = img[0, :, :].astype(np.int64)
+            idx = np.nonzero(cols[:, 0])[0]
+            if not len(idx):
+                unknown.append('blank image')
+                outs_t.append('')
+                outs_l.append(np.zeros((0, 3), dtype=np.int64))
+                continue
+            start = int((cols[idx[0], 0] - 1) + 251 * cols[idx[0], 1] + 251 * 256 * cols[idx[0], 2])
+            li = int(img[1, idx[0], 0]) - 1
+            step = mlw - mlw // 4
+            k = start // step if widths[li] > mlw else 0
+            if li < 0 or li >= len(parts) or k >= len(parts[li]) or (widths[li] > mlw and start % step):
+                unknown.append([li, start])
+                outs_t.append('')
+                outs_l.append(np.zeros((0, 3), dtype=np.int64))
+                continue
+            outs_t.append(parts[li][k])
+            outs_l.append(logits[li][k].copy())
+        return outs_t, outs_l
+    eng.run_ocr = run_ocr
+    lines = []
+    for li, w in enumerate(widths):
+        im = np.zeros((2, w, 3), dtype=np.uint8)
+        c = np.arange(w)
+        im[0, :, 0] = (c % 251) + 1
+        im[0, :, 1] = (c // 251) % 256
+        im[0, :, 2] = c // (251 * 256)
+        im[1, :, 0] = li + 1
+        lines.append(im)
+    inp = dict(stage='process_lines(transformer)', widths=widths, max_line_width=mlw, batch_size=bs, parts=parts)
+    try:
+        tr, lg, co = eng.process_lines(lines, sparse_logits=False)
+    except Exception as e:
+        ctx.violation('regroup-raises:' + type(e).__name__, 'process_lines raised %r' % (e,), inp)
+        return
+    if unknown:
+        ctx.count('regroup_unidentified_windows', len(unknown))
+        return
+    for li in range(len(widths)):
+        et, el = loe.merge_transcriptions_and_logits(list(parts[li]), [x.copy() for x in logits[li]])
+        gl = np.asarray(lg[li])
+        if tr[li] != et or gl.shape != np.asarray(el).shape or not np.array_equal(gl, np.asarray(el)):
+            ctx.violation('regroup', "the text / logits returned for a split line are not the stitching of its own windows' parts (in order, blank-only and empty "
+                          'parts included)', inp, [li, tr[li]], et)
+            return
+        if len(parts[li]) >= 2 and sum(len(p) for p in parts[li]) - len(et) == 0 and et != ''.join(parts[li]):
+            ctx.violation('regroup:concat', 'parts without overlap are not concatenated unchanged', inp, [li, tr[li]], ''.join(parts[li]))
+            return
+        if list(co[li]) != [0, len(et)]:
+            ctx.violation('regroup:coords', 'frame window of a transformer line is not [0, len(text)]', inp, co[li])
+    if any(len(p) >= 2 for p in parts):
+        ctx.nontriv(['regroup', widths, mlw, parts])
+    ctx.count('regroup_cases')
+
+
 def run(ctx):
     from pero_ocr.ocr_engine import line_ocr_engine as loe
     rng = ctx.rng
@@ -268,6 +360,12 @@ def run(ctx):
             cases.append(('win', w, mlw))
             if len(wins) > 1:
                 ctx.nontriv(['win', w, mlw])
+    for _ in range(60 if ctx.quick() else 600):
+        mlw = rng.choice([8, 40, 64, 100])
+        bs = rng.choice([1, 2, 8])
+        widths = [max(1, min(rng.choice([mlw - 1, mlw + 1, 2 * mlw, rng.randrange(1, 5 * mlw)]), 480 * bs - 64)) for _ in range(rng.randrange(1, 4))]
+        ctx.evaluations += 1
+        run_regroup(ctx, loe, rng, widths, mlw, bs)
     if ctx.driver_ok:
         rep = common.Driver(ctx).batch(reqs)
         for r, got, case in zip(rep, impl, cases):
